@@ -34,7 +34,11 @@ func c13Tree() *hx.Node {
 		hx.RawFile("k3y.iso", k3y),
 		hx.Dir("list", hx.File("f1", 10, 68), hx.File("f2", 2048, 69), hx.Dir("d1"), hx.Link("lf", "f1"), hx.Link("ld", "d1"), hx.Link("dangling", "nowhere")),
 		hx.Dir("up"), hx.Dir("empty"),
-		hx.Dir("special", hx.Fifo("pipe"), hx.File("beside", 5, 71)),
+		hx.Dir("special", hx.Fifo("pipe"), hx.File("beside", 5, 71),
+			// named pipes where the server itself goes looking: a key file, a PARAM.SFO
+			hx.Dir("PS3ISO", hx.File("p.iso", 4096, 72), hx.Fifo("p.dkey"), hx.File("q.iso", 4096, 73)),
+			hx.Dir("REDKEY", hx.Fifo("q.dkey")),
+			hx.Dir("PIPEGAME", hx.Dir("PS3_GAME", hx.Fifo("PARAM.SFO")), hx.File("EBOOT.BIN", 100, 74))),
 		// a raw CD image inside the sector-size detection window, with a sector size that is not the default
 		&hx.Node{Name: "cd2448.bin", Kind: "file", Size: 0x200000 + 2448*7, Seed: 70, Sparse: true,
 			Patches: []hx.Patch{{Off: 24 + 16*2448, Data: "\x01CD001\x01\x00"}}, Spans: [][2]int64{{0, 24 + 40*2448}}},
@@ -105,7 +109,9 @@ func c13Scenarios() []c13Scenario {
 		{"cd-image", false, []hx.Req{P("OPEN_FILE", "/cd2448.bin"), {Op: "READ_CD", Start: 1, Count: 2}, {Op: "READ_CD", Start: 16, Count: 1}, R("READ_FILE", 3000, 24+2448),
 			P("OPEN_FILE", "/cd2448.bin"), {Op: "READ_CD", Start: 3, Count: 1}}},
 		{"special-file", true, []hx.Req{P("STAT", "/special/pipe"), P("OPEN_FILE", "/special/pipe"), P("OPEN_DIR", "/special/pipe"), P("OPEN_DIR", "/special"), {Op: "READ_DIR"},
-			P("CREATE", "/special/pipe"), P("OPEN_FILE", "/special/beside"), R("READ_FILE", 10, 0), P("DIR_SIZE", "/special")}},
+			P("CREATE", "/special/pipe"), P("OPEN_FILE", "/special/beside"), R("READ_FILE", 10, 0), P("DIR_SIZE", "/special"),
+			P("OPEN_FILE", "/special/PS3ISO/p.iso"), R("READ_FILE", 4096, 0), P("OPEN_FILE", "/special/PS3ISO/q.iso"), R("READ_FILE", 100, 5),
+			P("OPEN_FILE", "/***PS3***/special/PIPEGAME"), P("OPEN_FILE", "/***DVD***/special/PIPEGAME"), P("STAT", "/special/beside")}},
 		{"uploads", true, []hx.Req{P("CREATE", "/up/new.bin"), {Op: "WRITE", N: 70000, Seed: 9}, {Op: "WRITE", N: 100, Seed: 10}, P("CREATE", "/up/second.bin"), {Op: "WRITE", N: 10, Seed: 11},
 			P("CREATE", "/small.txt"), P("MKDIR", "/up/dir"), P("DELETE", "/up/new.bin"), P("RMDIR", "/up/dir"), P("CREATE", "/up"), P("OPEN_FILE", "/up/second.bin"), R("READ_FILE", 100, 0)}},
 		{"mixed-state", true, []hx.Req{P("OPEN_DIR", "/list"), {Op: "READ_ENTRY"}, P("OPEN_FILE", "/***DVD***/GAME"), R("READ_CRIT", 5000, 28*2048), P("CREATE", "/up/x.bin"), {Op: "WRITE", N: 5000, Seed: 12},
